@@ -208,8 +208,24 @@ def judge_spec(spec, key, w, p, ty, kind, v, obs):
     return 'differ', 'spec/%s · ref=ok · obs=ok · text differs · type=%s' % (kind, ty), ref
 
 
+BIG_QUANTITIES = ['2147483646', '2147483647', '2147483648', '2147483649', '2147483650', '4294967295', '4294967296', '9223372036854775807', '9223372036854775808',
+                  '18446744073709551615', '18446744073709551616', '99999999999999999999999']
+
+
 def run_job(job):
     r = C.Result()
+    if job[0] == 'bigqty':
+        ts = ['%' + q + 'd' for q in BIG_QUANTITIES] + ['%.' + q + 's' for q in BIG_QUANTITIES] + ['%(k)' + q + '.' + q + 'f' for q in BIG_QUANTITIES] + ['a%-0' + q + 'x%%' for q in BIG_QUANTITIES]
+        res = C.run_worker(['cfmt_str\t' + C.hx(t) for t in ts] + ['cfmt_bytes\t' + C.hx(t) for t in ts])
+        for t, obs in zip(ts + ts, res):
+            r.evaluations += 1
+            bad = isinstance(obs, dict) and ('panic' in obs or 'crash' in obs or 'hang' in obs)
+            r.outcomes['bigqty:' + ('panic' if bad else 'no panic')] += 1
+            if bad:
+                r.fails.append(C.Fail(PROP, 'template · obs=panic on a huge width/precision', 'template', {'template': t}, obs, 'Ok or Err, no panic'))
+        r.by_bound['huge quantities'] += len(res)
+        r.states = r.transitions = r.validated = r.evaluations
+        return r
     if job[0] == 'tmpl':
         n, shard = job[1], job[2]
         ts = [t for t, _ in X.shard_strings(T_SIGMA, n, shard)]
@@ -256,6 +272,7 @@ def run(tier, seed):
     t0 = time.time()
     n = 5 if tier == 'quick' else 7
     jobs = [('tmpl', n, s) for s in X.prefix_shards(T_SIGMA, n)]
+    jobs.append(('bigqty',))
     jobs += [('spec', ch) for ch in X.chunks(spec_product(tier), 3000)]
     total = C.Result()
     for r in C.pmap(run_job, jobs):
